@@ -29,8 +29,9 @@ class CancellableAction(Future):
     An action that can be launched and potentially cancelled
     """
 
-    def __init__(self, action: Callable[..., Any], cookie: Any = None):
-        super().__init__()
+    def __init__(self, action: Callable[..., Any], cookie: Any = None, loop: Optional[asyncio.AbstractEventLoop] = None):
+        # (``loop``: the loop in which the action is going to be awaited, the current one by default)
+        super().__init__(loop=loop)
         self._action = action
         self._cookie = cookie
         self._running = False
